@@ -7,6 +7,7 @@ From Coq Require Import Reals Bool List.
 From SpdVerif Require Import Base.Rx Model.SpectrumSetup Gen.Spectrum Gen.Efficiencies Model.Spectrum
   Spec.Normalization
   Proofs.C07_scaling Proofs.C07_envelope Proofs.C07_support Proofs.C07_defined Proofs.C07_spec Proofs.C07_examples.
+From SpdVerif Require Import Spec.CrystalTypes Gen.Crystals Proofs.Sellmeier Model.Optics Model.Fresnel Proofs.Compose_index Proofs.C07_builtin.
 Local Open Scope R_scope.
 
 (* ---------- 1. linearity in power, quadratic in deff; for ALL inputs (no side condition) *)
@@ -159,9 +160,27 @@ Theorem C07_spectrum_defined_partial : forall ws wi s,
   pump_spectral_amplitude_defined (ws + wi) s.
 Proof. exact (fun ws wi s H Hn => match spectrum_defined ws wi s H Hn with conj A (conj B C) => conj A (conj B (conj C (envelope_defined (ws + wi) s H))) end). Qed.
 
+(* the FULL definedness clause for the built-in crystals: the index oracles are the code's own computation
+   (crystal_index = generated index_along over the generated crystal tables, Proofs/Compose_index.v), so no index hypothesis
+   is left.  `physical s` lists setup parameters only (positive pump frequency, 0 < fwhm < 2 lambda_p, positive length / power /
+   waists, deff <> 0, external angles inside (-pi/2, pi/2)).  What remains unproved for the property's last clause is only
+   the finiteness of the two fibre-coupling integrals themselves. *)
+Theorem C07_defined_builtin : forall c T theta phi ds di ps pi_ s ws wi,
+  let s' := with_crystal_indices c T theta phi ds di ps pi_ s in
+  physical s -> temp_ok T -> unit_vec ds -> unit_vec di ->
+  in_window c (lambda_um ws) -> in_window c (lambda_um wi) ->
+  indices_pos s' ws wi /\
+  pump_spectral_amplitude_defined (ws + wi) s' /\
+  jsi_normalization_defined ws wi s' /\ 0 < jsi_normalization ws wi s' /\
+  jsi_singles_normalization_defined ws wi s' /\ 0 < jsi_singles_normalization ws wi s' /\
+  spectrum_jsa_defined ws wi s' /\ spectrum_jsi_defined ws wi s' /\ spectrum_jsi_singles_defined ws wi s'.
+Proof. exact defined_builtin. Qed.
+
 (* ---------- non-vacuity: a concrete physical setup (775 nm pump, 0.5 nm FWHM, 1 mW, 1 pm/V) *)
 Example C07_nonvacuous_physical : physical example_setup /\ indices_pos example_setup 1.2e15 1.2e15.
 Proof. exact example_physical. Qed.
+Example C07_nonvacuous_builtin : in_window KTP (lambda_um 1.2e15) /\ temp_ok 20 /\ unit_vec (0, 0, 1).
+Proof. exact example_builtin. Qed.
 Example C07_nonvacuous_on_support : ~ off_support 1.2e15 1.2e15 example_setup.
 Proof. exact example_on_support. Qed.
 Example C07_nonvacuous_off_support : off_support 2.5e15 1e14 example_setup /\ off_support 1.3e15 1.2e15 example_setup.
@@ -191,3 +210,4 @@ Print Assumptions C07_support_normalized.
 Print Assumptions C07_support_tight.
 Print Assumptions C07_defined_partial.
 Print Assumptions C07_spectrum_defined_partial.
+Print Assumptions C07_defined_builtin.
